@@ -124,8 +124,19 @@ def seed_entries(pid):
     import os
     root = os.path.join(os.path.dirname(os.path.dirname(os.path.abspath(__file__))), 'seeded')
     out = []
-    for d in sorted(glob.glob(os.path.join(root, f'{pid}-m*'))) + sorted(glob.glob(os.path.join(root, 'wave*', f'{pid}-m*'))):
+    import json
+    for d in sorted(glob.glob(os.path.join(root, 'C??-m*'))) + sorted(glob.glob(os.path.join(root, 'wave*', 'C??-m*'))):
         pth = os.path.join(d, 'patch.diff')
+        # a seed belongs to the check of the property its author named, unless its meta.json records (kverif_reported_by, with
+        # the reason in kverif_note) that the clause it breaks is decided by the check of a sibling property
+        owners = [os.path.basename(d).split('-')[0]]
+        try:
+            with open(os.path.join(d, 'meta.json')) as fh:
+                owners = json.load(fh).get('kverif_reported_by') or owners
+        except (OSError, ValueError):
+            pass
+        if pid not in owners:
+            continue
         if os.path.exists(pth):
             tag = os.path.basename(os.path.dirname(d))
             with open(pth) as fh:
